@@ -42,8 +42,15 @@ func outRoot() string {
 	if os.Getenv("VERIF_REPO") != "" {
 		return filepath.Join(verif, ".work", "alt-tree")
 	}
+	if partialRun {
+		return filepath.Join(verif, ".work", "partial")
+	}
 	return verif
 }
+
+// partialRun: a debugging run restricted to some units (--only) or cut short
+// (--stop-on-violation) must not replace the evidence of the last complete run.
+var partialRun bool
 
 func fileExists(p string) bool { _, err := os.Stat(p); return err == nil }
 
@@ -177,6 +184,7 @@ func main() {
 	stopFirst := fs.Bool("stop-on-violation", false, "stop the remaining units as soon as one unit reports a violation (seed sweeps; evidence is then partial)")
 	only := fs.String("only", "", "substring filter on unit names (debugging; evidence is marked partial)")
 	fs.Parse(os.Args[2:])
+	partialRun = *only != "" || *stopFirst
 	if *tier == "" {
 		*tier = os.Getenv("VERIF_TIER")
 	}
